@@ -31,6 +31,7 @@ struct Scenario {
     ok_only_with: Option<Vec<u8>>, // readers, corrupt input with an integrity check: success is allowed only with exactly these bytes
     preset: Option<Vec<u8>>, // LZMA2 reader / writer: preset dictionary
     nice: Option<u32>,       // writers: nice_len override (out-of-range values: every call must still return; an error is fine)
+    short_reads: usize,      // readers: the source delivers at most this many bytes per read call (0 = no limit)
 }
 
 /// what one execution observed (shared with the closure through a mutex)
@@ -69,7 +70,7 @@ fn run_scenario(sc: &Scenario, obs: &Arc<Mutex<Obs>>) {
                 let mut buf = vec![0u8; 700];
                 let mut calls = 0usize;
                 if sc.kind == "lzma2r" {
-                    let mut r = LZMA2ReaderMT::new(Cursor::new(sc.input.clone()), sc.dict, sc.preset.as_deref(), sc.workers);
+                    let mut r = LZMA2ReaderMT::new(BudgetCursor::short(sc.input.clone(), u64::MAX, sc.short_reads), sc.dict, sc.preset.as_deref(), sc.workers);
                     loop {
                         if let Some(n) = sc.reads_before_drop {
                             if calls >= n {
@@ -91,7 +92,7 @@ fn run_scenario(sc: &Scenario, obs: &Arc<Mutex<Obs>>) {
                         out.extend_from_slice(&buf[..n]);
                     }
                 } else {
-                    let mut r = LZIPReaderMT::new(BudgetCursor::new(sc.input.clone(), 2_000_000), sc.workers)?;
+                    let mut r = LZIPReaderMT::new(BudgetCursor::short(sc.input.clone(), 2_000_000, sc.short_reads), sc.workers)?;
                     loop {
                         if let Some(n) = sc.reads_before_drop {
                             if calls >= n {
@@ -235,7 +236,7 @@ fn scenarios(prop: &str, rng: &mut Rng, thorough: bool) -> Vec<Scenario> {
         for &workers in if thorough { &[1u32, 2, 3, 4][..] } else { &[1u32, 3][..] } {
             let base = Scenario {
                 name: String::new(), kind: "lzma2r", input: vec![], expect: None, workers, dict, unit,
-                reads_before_drop: None, writes: vec![], finish: true, flush_at: None, may_ok: false, ok_only_with: None, preset: None, nice: None,
+                reads_before_drop: None, writes: vec![], finish: true, flush_at: None, may_ok: false, ok_only_with: None, preset: None, nice: None, short_reads: 0,
             };
             if prop == "C08" || prop == "C10" {
                 v.push(Scenario { name: format!("lzma2r-valid-{size}-w{workers}"), kind: "lzma2r", input: l2.clone(), expect: Some(data.clone()), ..base.clone() });
@@ -243,6 +244,35 @@ fn scenarios(prop: &str, rng: &mut Rng, thorough: bool) -> Vec<Scenario> {
                 let parts = { let (_, p) = gen_partition(rng, data.len()); p };
                 v.push(Scenario { name: format!("lzma2w-{size}-w{workers}"), kind: "lzma2w", input: data.clone(), writes: parts.clone(), flush_at: if rng.chance(1, 2) { Some(0) } else { None }, ..base.clone() });
                 v.push(Scenario { name: format!("lzipw-{size}-w{workers}"), kind: "lzipw", input: data.clone(), writes: parts.clone(), ..base.clone() });
+            }
+            if (prop == "C08" || prop == "C10") && size > 0 {
+                // a source that delivers only a few bytes per read call (legal for io::Read): same bytes as the
+                // single-threaded reader
+                for max in [1usize, 7, 1000] {
+                    v.push(Scenario { name: format!("lzipr-shortreads{max}-{size}-w{workers}"), kind: "lzipr", input: lz.clone(), expect: Some(data.clone()), short_reads: max, ..base.clone() });
+                    v.push(Scenario { name: format!("lzma2r-shortreads{max}-{size}-w{workers}"), kind: "lzma2r", input: l2.clone(), expect: Some(data.clone()), short_reads: max, ..base.clone() });
+                }
+            }
+            if (prop == "C08" || prop == "C09" || prop == "C10" || prop == "C12MT") && size > 0 {
+                // LZIP member sequences as `cat a.lz empty.lz b.lz` produces them: an empty member in the middle / first /
+                // last; one large slow member followed by tiny ones (a later member is finished before an earlier one)
+                let a = &data[..data.len() / 2];
+                let b = &data[data.len() / 2..];
+                let e: &[u8] = &[];
+                for (tag, parts) in [("empty-middle", vec![a, e, b]), ("empty-first", vec![e, a, b]), ("empty-last", vec![a, b, e]), ("empties", vec![e, e, a, e, e, b, e])] {
+                    let file: Vec<u8> = parts.iter().flat_map(|p| st_lzip(p, dict, 1 << 20)).collect();
+                    let plain: Vec<u8> = parts.concat();
+                    v.push(Scenario { name: format!("lzipr-members-{tag}-{size}-w{workers}"), kind: "lzipr", input: file, expect: Some(plain), ..base.clone() });
+                }
+                let big = gen_data(rng, "random", 20_000);
+                let tiny: Vec<Vec<u8>> = (0..5).map(|k| format!("-- tiny member number {k} --").into_bytes()).collect();
+                let mut file = st_lzip(&big, dict, 1 << 20);
+                let mut plain = big.clone();
+                for t in &tiny {
+                    file.extend(st_lzip(t, dict, 1 << 20));
+                    plain.extend_from_slice(t);
+                }
+                v.push(Scenario { name: format!("lzipr-members-bigfirst-{size}-w{workers}"), kind: "lzipr", input: file, expect: Some(plain), ..base.clone() });
             }
             if (prop == "C08" || prop == "C09" || prop == "C10") && size > 0 {
                 // total length an exact multiple of the unit (the tail unit is empty at finish), and flush directly
@@ -347,7 +377,7 @@ fn scenarios(prop: &str, rng: &mut Rng, thorough: bool) -> Vec<Scenario> {
             for workers in [1u32, 2] {
                 v.push(Scenario {
                     name: format!("lzma2r-maxchunk-w{workers}"), kind: "lzma2r", input: stream.clone(), expect: Some(data.clone()), workers, dict: 1 << 16, unit: 0,
-                    reads_before_drop: None, writes: vec![], finish: true, flush_at: None, may_ok: false, ok_only_with: None, preset: None, nice: None,
+                    reads_before_drop: None, writes: vec![], finish: true, flush_at: None, may_ok: false, ok_only_with: None, preset: None, nice: None, short_reads: 0,
                 });
             }
         }
@@ -358,7 +388,7 @@ fn scenarios(prop: &str, rng: &mut Rng, thorough: bool) -> Vec<Scenario> {
 fn main() {
     let args: Vec<String> = std::env::args().collect();
     if args.len() < 5 {
-        eprintln!("usage: vhmt <C08|C09|C10> <quick|thorough> <seed> <outdir>");
+        eprintln!("usage: vhmt <C08|C09|C10|C12MT> <quick|thorough> <seed> <outdir>");
         std::process::exit(2);
     }
     let prop = args[1].as_str();
